@@ -49,7 +49,17 @@ package app
 //@ loop 3: invariant AllDes(mapval(spokfile.Tasks), mapval(spokfile.Vars), spokfile.Dir, toRemove) && SeenBut(mapval(spokfile.Tasks), mapval(spokfile.Vars), spokfile.Dir, $seen, $key, true, toRemove)
 //@ loop 3: invariant FileDone(task, len(task.FileOutputs), toRemove) && NamedDone(mapval(spokfile.Vars), task, len(task.NamedOutputs), toRemove) && GlobDone(spokfile.Dir, task, $i, toRemove)
 //@ loop 4: invariant 0 <= $i && $i <= len(toRemove) && removed == old(removed)
+//@ loop 4: invariant mapval(spokfile.Tasks) == mapval(spokfile.Tasks) && forall t string :: {dom(spokfile.Tasks, t)} dom(spokfile.Tasks, t) ==> TaskDone(mapval(spokfile.Vars), spokfile.Dir, spokfile.Tasks[t], toRemove)
 //@ loop 4: invariant forall j int :: {toRemove[j]} 0 <= j && j < $i ==> toRemove[j] != spokfile.Path && !ancOrSelf(toRemove[j], spokfile.Dir)
 //@ loop 5: invariant 0 <= $i && $i <= len(toRemove)
+//@ loop 5: invariant mapval(spokfile.Tasks) == mapval(spokfile.Tasks) && forall t string :: {dom(spokfile.Tasks, t)} dom(spokfile.Tasks, t) ==> TaskDone(mapval(spokfile.Vars), spokfile.Dir, spokfile.Tasks[t], toRemove)
 //@ loop 5: invariant forall j int :: {toRemove[j]} 0 <= j && j < $i ==> removed[toRemove[j]]
 //@ loop 5: invariant forall p string :: {removed[p]} removed[p] && !old(removed)[p] ==> 0 <= remIdx[p] && remIdx[p] < $i && toRemove[remIdx[p]] == p
+
+// handleClean: with a user-defined clean task spok itself removes nothing
+//@ func (*App).handleClean
+//@ props C12
+//@ requires a.Options != nil && runner != nil && TasksInv(spokfile) && I01(cp(spokfile)) && spokfile.Globs != nil && GlobsCurrent(spokfile)
+//@ modifies removed, fexists, fdata, last, ranCount, dagV, dagE, dagItem, dagN, qpos, lastGraph, runPhase, mapOf(spokfile.Globs), lastResults
+//@ ensures [C12,user-clean-task-runs-instead] dom(spokfile.Tasks, "clean") ==> removed == old(removed)
+//@ ensures [C12,only-designated-paths-removed] forall p string :: {removed[p]} removed[p] && !old(removed)[p] ==> Des(spokfile, p) && p != spokfile.Path && !ancOrSelf(p, spokfile.Dir)
